@@ -11,6 +11,7 @@ import (
 	"runtime"
 	"runtime/pprof"
 	"sort"
+	"strconv"
 	"strings"
 	"sync"
 	"time"
@@ -163,10 +164,30 @@ func Start(name string) *Result {
 	r := &Result{Harness: name, Args: os.Args[1:], Seed: *FlagSeed, Tier: *FlagTier,
 		DistinctKeys: map[string]int64{}, Observed: map[string]int64{}, vioCount: map[string]int{},
 		Extra: map[string]any{}, t0: time.Now(), out: *FlagOut}
+	if v, err := strconv.Atoi(os.Getenv("VERIF_SOFT_DEADLINE_S")); err == nil && v > 0 {
+		softDeadline = r.t0.Add(time.Duration(v) * time.Second)
+	}
 	return r
 }
 
 var cpuProfile *os.File
+
+var (
+	softDeadline time.Time
+	timeUpNoted  sync.Once
+)
+
+// TimeUp reports whether the job's time budget (VERIF_SOFT_DEADLINE_S, set by vcheck to a fraction of the hard limit) is
+// used up. Harnesses ask at case boundaries and stop generating further cases; what has been explored is judged as usual.
+func (r *Result) TimeUp() bool {
+	if softDeadline.IsZero() || time.Now().Before(softDeadline) {
+		return false
+	}
+	timeUpNoted.Do(func() {
+		r.Note("time budget of this job used up after %.0fs: no further cases generated (machine loaded?)", time.Since(r.t0).Seconds())
+	})
+	return true
+}
 
 func (r *Result) Thorough() bool { return r.Tier == "thorough" }
 
